@@ -1240,6 +1240,81 @@ def rule_format_only_on_literals(cm, rep, rid):
     rep.ok(rid, 'emitter', '%d format operations in the emitter examined' % n, None, nontrivial=bool(n))
 
 
+def rule_asserts_have_no_effects(cm, rep, rid):
+    rep.rule(rid, 'no assert statement of the compiler-side modules does work: its test calls nothing but pure inspections '
+                  '(isinstance, len, type, ..) - with python -O / PYTHONOPTIMIZE asserts are not executed, so an effect inside '
+                  'one (a pop, a counter) makes the generated text depend on how the interpreter was started')
+    from .callgraph import CallGraph
+    from .rules_extra import MUTATORS
+    pure = {'isinstance', 'len', 'type', 'all', 'any', 'callable', 'hasattr', 'getattr', 'issubclass', 'bool', 'str', 'repr', 'int', 'sorted', 'set', 'list', 'tuple', 'min', 'max'}
+    cg = CallGraph(cm.repo)
+
+    def works(f, call):
+        """why evaluating this call changes state that outlives it, or None"""
+        if isinstance(call.func, ast.Name) and call.func.id == 'next':
+            return 'advances an iterator'
+        cs = cg.resolve_callable(f, call.func)
+        if not cs:
+            if isinstance(call.func, ast.Attribute) and call.func.attr in MUTATORS and not (
+                    isinstance(call.func.value, ast.Name) and call.func.attr in ('pop', 'get', 'setdefault') and False):
+                root = call.func.value
+                while isinstance(root, (ast.Attribute, ast.Subscript)):
+                    root = root.value
+                if isinstance(root, ast.Name) and (root.id == 'self' or root.id in [a.arg for a in f.node.args.args]) and \
+                        isinstance(call.func.value, ast.Attribute):
+                    return 'changes %s' % norm(call.func.value)
+            return None
+        for g in cg.reachable(cs, with_refs=False):
+            if g.name == '__init__':
+                continue
+            for x in own_nodes_ordered(g.node):
+                tg = []
+                if isinstance(x, ast.Assign):
+                    tg = x.targets
+                elif isinstance(x, (ast.AugAssign, ast.AnnAssign)):
+                    tg = [x.target]
+                elif isinstance(x, ast.Delete):
+                    tg = x.targets
+                for t in tg:
+                    for e in (t.elts if isinstance(t, (ast.Tuple, ast.List)) else [t]):
+                        root = e
+                        while isinstance(root, (ast.Attribute, ast.Subscript)):
+                            root = root.value
+                        if isinstance(e, (ast.Attribute, ast.Subscript)) and isinstance(root, ast.Name) and \
+                                (root.id == 'self' or root.id in [a.arg for a in g.node.args.args]):
+                            return '%s stores %s' % (g.qname, norm(e))
+                if isinstance(x, ast.Call) and isinstance(x.func, ast.Attribute) and x.func.attr in MUTATORS and \
+                        isinstance(x.func.value, ast.Attribute):
+                    root = x.func.value
+                    while isinstance(root, (ast.Attribute, ast.Subscript)):
+                        root = root.value
+                    if isinstance(root, ast.Name) and (root.id == 'self' or root.id in [a.arg for a in g.node.args.args]):
+                        if x.func.attr in ('get',):
+                            continue
+                        return '%s calls %s' % (g.qname, norm(x)[:40])
+        return None
+
+    n = 0
+    for f in cm.repo.all_functions(('compiler', 'yp_generator', 'yp_prolog_visitor', 'errors')):
+        for s_ in own_nodes_ordered(f.node):
+            if not isinstance(s_, ast.Assert):
+                continue
+            n += 1
+            why = None
+            for x in ast.walk(s_.test):
+                if isinstance(x, ast.Call) and not (isinstance(x.func, ast.Name) and x.func.id in pure):
+                    why = works(f, x)
+                    if why:
+                        break
+            key = '%s:%s' % (f.qname, norm(s_)[:50])
+            if why:
+                rep.violation(rid, key, 'this assert does work (%s): under python -O it is skipped, and the compiler then carries on in a '
+                              'different state - the same source compiles to different text' % why, f.loc(s_))
+            else:
+                rep.ok(rid, key, 'inspects only', f.loc(s_))
+    rep.ok(rid, 'asserts', '%d assert statement(s) in the compiler-side modules' % n, None, nontrivial=bool(n))
+
+
 def rule_codecs_strict(cm, rep, rid):
     rep.rule(rid, 'between bytes and text nothing is lost or rewritten, and nothing depends on the process: in the compiler module '
                   'no decode/encode/open/stream call asks for a lenient error handler (errors=ignore/replace/backslashreplace..), '
